@@ -662,6 +662,7 @@ func (v *Verifier) doAppend(st *State, in ssa.Instruction, c *ssa.CallCommon) Va
 	n := sliceLen(s.T)
 	b := sliceBase(s.T)
 	off := sliceOff(s.T)
+	st.addLen(n)
 	ctx := v.env.ctx
 	A := ctx.freshConst("app.arr", arr("Int", es))
 	nb := v.env.allocRef(st, "app")
